@@ -758,6 +758,10 @@ func (fr *Frame) assertAtCall(calleeName string, args []Val, sig *types.Signatur
 		}
 		t, err := env.Goal(c.Expr)
 		if err != nil {
+			if c.Optional && strings.Contains(err.Error(), "cannot resolve identifier") {
+				// a `call?` clause about a variable that is not defined yet at this call site says nothing here
+				continue
+			}
 			fr.e.unsupported = append(fr.e.unsupported, fmt.Sprintf("%s: assert-at %s:%d: %v", fr.prefix, c.File, c.Line, err))
 			continue
 		}
